@@ -85,8 +85,19 @@ def R1_range_fields(run):
                 ok = {w["field"] for w in zs} == {"fee_growth_checkpoint_a", "fee_growth_checkpoint_b", "growth_inside_checkpoint"} and all(const_val(pv._rvalue(w["rv"], w["block"], w["stmt"], 0)) == 0 for w in zs)
             else:
                 zc = calls_to(fn, lambda p: p in (MP + "::set_fee_growth_checkpoint_a", MP + "::set_fee_growth_checkpoint_b"))
-                rr = calls_to(fn, lambda p: p == MP + "::reset_reward_growth_checkpoints")
-                ok = len(zc) == 2 and all(const_val(a[1]) == 0 for (_, _, a) in zc) and len(rr) == 1
+                # the reward checkpoints (reset_reward_growth_checkpoints is read spliced into this function): every element of
+                # self.reward_infos gets growth_inside_checkpoint := 0
+                rr = []
+                for w in writes.field_stores(facts):
+                    if w["fn"] is fn and w["field"] == "growth_inside_checkpoint" and w["last"]:
+                        st_ = fn.blocks[w["block"]]["s"][w["stmt"]]
+                        base = pv.local(st_["p"]["l"], w["block"], w["stmt"])
+                        v_ = strip(pv._rvalue(w["rv"], w["block"], w["stmt"], 0))
+                        zero = const_val(v_) == 0 or (v_[0] == "call" and v_[1].endswith("to_le_bytes") and const_val(v_[2][0]) == 0) or \
+                            (v_[0] == "repeat" and const_val(v_[1]) == 0) or (v_[0] == "array" and all(const_val(x) == 0 for x in v_[1]))
+                        every = mentions(base, lambda t: t[0] == "field" and t[2] == "reward_infos") and w["block"] in pv.cycle_blocks()
+                        rr.append(zero and every)
+                ok = len(zc) == 2 and all(const_val(a[1]) == 0 for (_, _, a) in zc) and len(rr) >= 1 and all(rr)
             run.check("R1", "reset-zeroes-checkpoints@" + short, ok, "%s does not reset all growth checkpoints to 0" % path, loc=fn.loc(), detail="fee checkpoints a/b and reward checkpoints := 0")
     # validate_tick_range atoms (both)
     for path in ("state::position::validate_tick_range_for_whirlpool", "pinocchio::state::whirlpool::position::validate_tick_range_for_whirlpool"):
@@ -113,7 +124,21 @@ def R1_range_fields(run):
         run.check("R1", "usable-both@" + short, {"tick_lower_index", "tick_upper_index"} <= usable, "%s does not test usability of both bounds (tests %s)" % (path, sorted(usable)), loc=fn.loc(),
                   detail="!usable(lower) || !usable(upper) => InvalidTickIndex")
         run.check("R1", "lower-lt-upper@" + short, order, "%s does not reject lower >= upper" % path, loc=fn.loc(), detail="lower >= upper => InvalidTickIndex")
-        thr = any(o == "Ge" and arg_name(x) == "tick_spacing" and const_val(y) == 32768 for at in A.atoms(fn) if at.cond() for (o, x, y) in ((at.cond()[0], at.cond()[1], at.cond()[2]), (A.SWAP[at.cond()[0]], at.cond()[2], at.cond()[1])))
+        # the threshold test, whichever way round it is written (>= before the rule, or < with an early return): the
+        # FullRangeOnlyPool test is applied on the >= side and only there
+        thr = False
+        full_blocks = [at.block for at in A.atoms(fn) if "FullRangeOnlyPool" in _codes(at)]
+        for at in A.atoms(fn):
+            c = at.cond()
+            if not c:
+                continue
+            for (o, x, y) in ((c[0], c[1], c[2]), (A.SWAP[c[0]], c[2], c[1])):
+                if o in ("Ge", "Lt") and arg_name(x) == "tick_spacing" and const_val(y) == 32768:
+                    ge_side, lt_side = (at.true_targets, at.false_targets) if o == "Ge" else (at.false_targets, at.true_targets)
+                    r_ge = set().union(*[cfg.reach(fn, b, cut_blocks=[at.block]) for b in ge_side]) if ge_side else set()
+                    r_lt = set().union(*[cfg.reach(fn, b, cut_blocks=[at.block]) for b in lt_side]) if lt_side else set()
+                    if full_blocks and all(b in r_ge and b not in r_lt for b in full_blocks) and not at.true_fail and not at.false_fail:
+                        thr = True
         run.check("R1", "full-range-only@" + short, full and thr, "%s lost the full-range-only rule for tick_spacing >= 32768" % path, loc=fn.loc(), detail="spacing >= 2^15 && range != full => FullRangeOnlyPool")
 
 
